@@ -25,7 +25,10 @@ CFG = {
                  "library on Model/VM.v vs the reference interpreter (the statement of compile_correct, evaluated). Generator: mostly bound "
                  "variables with truthy/falsy mixes, v/w shadowed across loop variable/set/set_global/includer/context/global, includes in "
                  "captures in loops, break/continue under if under nested loops, loops over a string with 3- and 4-byte characters, "
-                 "single-entry and empty maps, empty arrays (else bodies), loop.*; non-trivial = renders > 3 characters from >= 5 statements.",
+                 "single-entry and empty maps, empty arrays (else bodies), loop.*; every 4th library (and 10/60 template sets of the vm family) is an "
+                 "include CHAIN of depth 2-4 whose inner templates read loop variables, per-iteration sets (loop.index copies), set and set_global "
+                 "variables of includers at EVERY distance, with shadowing at intermediate levels and includes inside filter sections / set blocks "
+                 "(vm sets also read __tera_loop_index of the includers directly); non-trivial = renders > 3 characters from >= 5 statements.",
     "trusted_base": TB_COMMON + [
         "axioms: none",
         "Model/VM.v is a hand port of interpret(); Model/World0.v models only default/upper(ASCII)/safe/length, defined/undefined, "
